@@ -8,6 +8,8 @@ use crate::item::{Field, Instr, Item, Shape, Variant};
 pub struct FOpts {
     pub max_members: usize,
     pub two_counterparts: bool,
+    /// always two counterparts (no choice point)
+    pub force_two: bool,
     /// member menu size class: 0 = core (6 entries), 1 = full
     pub full_menu: bool,
     pub params: bool,
@@ -60,7 +62,7 @@ pub fn gen_struct(ctx: &mut Ctx, o: &FOpts) -> Option<FCase> {
         (n, _) => n,
     };
     let preset = ctx.choose(KIND_PRESETS.len());
-    let two = o.two_counterparts && ctx.flag();
+    let two = o.force_two || (o.two_counterparts && ctx.flag());
     let n = 1 + ctx.choose(o.max_members);
     let mut tags = vec![format!("host=struct"), format!("shape={}", if named { "named" } else { "tuple" }), format!("hint={}", hint.trim()), format!("preset={}", KIND_PRESETS[preset].0)];
     if two {
@@ -79,7 +81,7 @@ pub fn gen_struct(ctx: &mut Ctx, o: &FOpts) -> Option<FCase> {
         let me = if named { mname.to_string() } else { k.to_string() };
         let mut f = if named { Field::named(mname, "i32") } else { Field::pos("i32") };
         let need_rename = named != cp_named;
-        let ded = if two && ctx.flag() { Some("T") } else { None };
+        let ded = if two { [None, Some("T"), Some("U")][ctx.choose(3)] } else { None };
         let choice = ctx.choose(menu_n);
         tags.push(format!("m{}={}", k, choice));
         match choice {
@@ -267,7 +269,7 @@ const ENUM_PRESETS: &[(&str, &[&str])] = &[
 
 pub fn gen_enum(ctx: &mut Ctx, o: &FOpts) -> Option<FCase> {
     let preset = ctx.choose(ENUM_PRESETS.len());
-    let two = o.two_counterparts && ctx.flag();
+    let two = o.force_two || (o.two_counterparts && ctx.flag());
     let nv = 1 + ctx.choose(o.max_members);
     let mut tags = vec!["host=enum".to_string(), format!("preset={}", ENUM_PRESETS[preset].0)];
     if two {
@@ -280,7 +282,7 @@ pub fn gen_enum(ctx: &mut Ctx, o: &FOpts) -> Option<FCase> {
     for k in 0..nv {
         let vname = ["A", "B", "C", "D"][k];
         let shape = [Shape::Unit, Shape::Tuple, Shape::Named][ctx.choose(3)];
-        let ded = if two && ctx.flag() { Some("T") } else { None };
+        let ded = if two { [None, Some("T"), Some("U")][ctx.choose(3)] } else { None };
         let mut v = Variant { attrs: vec![], name: vname.into(), shape, fields: vec![] };
         match shape {
             Shape::Unit => {}
